@@ -7,7 +7,7 @@
  *   Rss{a,j,rss,r2gap}       RSS of recalculated_y[:,ny*(a-1)+j] against y_j; r2gap = reported R2 / RMSE of
  *                            PLSRegressionStatistics against 1 - RSS/TSS and sqrt(RSS/n)
  *   Stat{a,j,r2gap,rmsegap}  same statistics on unseen objects (predictions by PLSYPredictorAllLV)
- *   Ols{j,rssOls,err,full}   independent least squares (LAPACK dgels): on [1 X] when both blocks are centred; when a block
+ *   Ols{j,rssPls,rssOls,err,full}   independent least squares (LAPACK dgels): on [1 X] when both blocks are centred; when a block
  *                            is not centred (option -1) on the design the model then spans (no intercept column)
  *   Beta{a,errTrain,errNew}  single response: ybar + s_y * ((x - xbar)/s_x) . PLSBetasCoeff(a) against the score form
  *   Affine{c,d,errTrain,errNew}  single centred response: model of c*y+d against c*(predictions)+d, all LV counts
@@ -106,7 +106,8 @@ static int one_case(void *arg){
     int info = pc_dgels(D, n, k, Tg, ny, Bo);
     for(int j = 0; j < ny; j++){
       int full = (nlv == p);
-      double rs = 0, df = 0;
+      double rs = 0, df = 0, rp = 0;
+      for(int i = 0; i < n; i++){ double e = R[i][ny * (nlv - 1) + j] - Y[i][j]; rp += e * e; }
       for(int i = 0; i < n; i++){
         double f = 0; for(int q = 0; q < k; q++) f += D[i][q] * Bo[q][j];
         if(c.ys >= 0 && !icpt) f += ybar[j];
@@ -114,7 +115,7 @@ static int one_case(void *arg){
         double d = R[i][ny * (nlv - 1) + j] - f; df += d * d;
       }
       if(info != 0){ rs = NAN; df = NAN; }
-      VRT_EMIT("{\"e\":\"Ols\",\"j\":%d,\"rssOls\":%ld,\"err\":%ld,\"full\":%d}", j, q9(rs / den[j]), full ? pc_q12("olsErr", sqrt(df / den[j])) : 0L, full);
+      VRT_EMIT("{\"e\":\"Ols\",\"j\":%d,\"rssPls\":%ld,\"rssOls\":%ld,\"err\":%ld,\"full\":%d}", j, q9(rp / den[j]), q9(rs / den[j]), full ? pc_q12("olsErr", sqrt(df / den[j])) : 0L, full);
     }
     pc_free(D, n); pc_free(Tg, n); pc_free(Bo, k);
   }
